@@ -771,3 +771,25 @@ Proof.
     split; [exact H1 | intros [?|?]; contradiction]. }
   destruct HL as [_ HL]. intros Hx. apply HL. left. exact Hx.
 Qed.
+
+(* ---- (6) the queue of this model is the FIFO specification of C10 ------------------------------------------------
+   Model/Queue.v identifies a batch with a content id; under ANY encoding [enc] of transaction lists as ids, the
+   two queue operations of this model (WQPut on acceptance, WQDel of the head on hand-out, refusal at the bound) are
+   the steps [s_step] of the specification that C10_fifo_full proves the real queue to refine. *)
+Require Verif.Model.Queue.
+
+Lemma queue_submit_is_C10 (enc : batch -> Verif.Model.Queue.batch) max q b :
+  Verif.Model.Queue.s_step max (map enc q) (Verif.Model.Queue.USubmit true (Verif.Model.Queue.UB (enc b))) =
+  if full max q then (map enc q, Verif.Model.Queue.RFull) else (map enc (q ++ [b]), Verif.Model.Queue.ROk).
+Proof.
+  cbn [Verif.Model.Queue.s_step]. unfold Verif.Model.Queue.s_full, full. rewrite map_length.
+  destruct ((0 <? max)%N && (max <=? N.of_nat (length q))%N); [reflexivity|]. rewrite map_app. reflexivity.
+Qed.
+
+Lemma queue_next_is_C10 (enc : batch -> Verif.Model.Queue.batch) max q :
+  Verif.Model.Queue.s_step max (map enc q) (Verif.Model.Queue.UNext true) =
+  match q with
+  | [] => (map enc q, Verif.Model.Queue.REmpty)
+  | b :: r => (map enc r, Verif.Model.Queue.RBatch (enc b))
+  end.
+Proof. destruct q; reflexivity. Qed.
